@@ -695,8 +695,68 @@ fn layered_best_cases(ctx: &mut Ctx) {
     }
 }
 
+/// "preserves the physical amount" when a later layer REBASES a quantity: the layer edits the ratio of every declared unit of one
+/// quantity by the same factor (`[extend.units] gram = { ratio = … }`), which changes no physical relation between units. The SI
+/// expansions (kg, ml, …) have to follow their parent; every unit with a standard definition is checked against it (normalised by
+/// the first such unit) and values are converted across all pairs. The layer is built from `UnitsFile::bundled()` itself, so a
+/// changed units.toml changes the layer with it.
+fn rebased_layer_cases(ctx: &mut Ctx) {
+    use cooklang::convert::units_file::{Extend, ExtendUnitEntry, Units, UnitsFile};
+    let bundled = UnitsFile::bundled();
+    for q in [PhysicalQuantity::Mass, PhysicalQuantity::Volume, PhysicalQuantity::Length, PhysicalQuantity::Time] {
+        for factor in [0.001f64, 12.0] {
+            let mut map = std::collections::HashMap::new();
+            for g in bundled.quantity.iter().filter(|g| g.quantity == q) {
+                let entries: Vec<&cooklang::convert::units_file::UnitEntry> = match &g.units {
+                    None => vec![],
+                    Some(Units::Unified(v)) => v.iter().collect(),
+                    Some(Units::BySystem { metric, imperial, unspecified }) => metric.iter().chain(imperial.iter()).chain(unspecified.iter()).collect(),
+                };
+                for e in entries {
+                    let Some(key) = e.names.first().or(e.symbols.first()) else { continue };
+                    map.insert(key.to_string(), ExtendUnitEntry { ratio: Some(e.ratio * factor), ..Default::default() });
+                }
+            }
+            if map.is_empty() { continue; }
+            let desc = format!("bundled units + a layer that multiplies the ratio of every declared {q} unit by {factor}");
+            let layer = UnitsFile { default_system: None, si: None, fractions: None, extend: Some(Extend { precedence: Default::default(), units: map }), quantity: vec![] };
+            let built = guarded(|| Converter::builder().with_bundled_units().map_err(|e| e.to_string())?.with_units_file(layer).map_err(|e| e.to_string())?.finish().map_err(|e| e.to_string()));
+            let conv = match built { Ok(Ok(c)) => c, Ok(Err(e)) => { ctx.oracle_fail(desc, format!("the rebasing layer is refused: {e}"), "c09:rebase-refused".into()); continue; } Err(p) => { ctx.oracle_fail(desc, format!("panic {p}"), panic_signature(&p)); continue; } };
+            ctx.eval("", true);
+            let us: Vec<Arc<Unit>> = conv.all_units().filter(|u| u.physical_quantity == q).filter_map(|u| conv.find_unit(u.symbol())).filter(|u| std_def(u.symbol()).is_some()).collect();
+            let Some(u0) = us.first() else { continue };
+            let s0 = std_def(u0.symbol()).unwrap();
+            for u in &us {
+                let (r, _) = std_def(u.symbol()).unwrap();
+                ctx.count("rebased:units_checked_against_standard_definition");
+                if !close(u.ratio / u0.ratio, r / s0.0, 0.0, 1e-6) {
+                    ctx.oracle_fail(format!("{desc}: unit {:?} has ratio {:?}", u.symbol(), u.ratio),
+                        format!("relative to {:?} (ratio {:?}) this differs from the standard definition ({:?}) by more than 1e-6", u0.symbol(), u0.ratio, r / s0.0), "c09:rebase-std".into());
+                }
+            }
+            for a in &us { for b in &us {
+                let v = 2.0f64;
+                let got = guarded(|| conv.convert(ConvertValue::Number(v), ConvertUnit::Unit(a), ConvertTo::Unit(ConvertUnit::Unit(b))));
+                ctx.count("rebased:pair-conversions");
+                match got {
+                    Ok(Ok((ConvertValue::Number(x), _))) => {
+                        let want = v * std_def(a.symbol()).unwrap().0 / std_def(b.symbol()).unwrap().0;
+                        if !close(x, want, 0.0, 1e-6) {
+                            ctx.oracle_fail(format!("{desc}: {v} {} -> {}", a.symbol(), b.symbol()), format!("gives {x:?}, the physical amount is {want:?} {}", b.symbol()), "c09:rebase-amount".into());
+                        }
+                    }
+                    Ok(Ok(_)) => {}
+                    Ok(Err(e)) => ctx.oracle_fail(format!("{desc}: {v} {} -> {}", a.symbol(), b.symbol()), format!("conversion between units of one quantity fails: {e}"), "c09:rebase-fails".into()),
+                    Err(p) => ctx.oracle_fail(format!("{desc}: {v} {} -> {}", a.symbol(), b.symbol()), format!("panic {p}"), panic_signature(&p)),
+                }
+            } }
+        }
+    }
+}
+
 pub fn run(ctx: &mut Ctx) {
     layered_best_cases(ctx);
+    rebased_layer_cases(ctx);
     ctx.rule = "Converter::convert over all ordered pairs of the units of the bundled converter x a log grid (1e-6..1e9) + zero, negatives, ranges; \
 round trip on every pair and triangle over (a sample of) all same-quantity triples; conversion to both systems and to the same system from every unit on the grid \
 and at every threshold of the target list (-0.001, 0, +0.001, each +-3 ulp); non-symbol keys, unknown keys, non-finite and extreme values; \
